@@ -32,7 +32,7 @@ CLAIMED["C09"] = dict(
           "decides every delivery of client bytes (with fragmentation), every answer to workspace/configuration, every completion of a "
           "file operation and every drain of the server's output, under four policies (sequential, uniform random, latency-ordered "
           "discrete-event, PCT-style priorities), over editor sessions of 1-3 documents in 30 language ids with edits, saves, closes, "
-          "deletes, configuration changes, dictionary and ignore commands and restarts. At every quiescent point and at the end, the last "
+          "deletes, configuration changes (valid and invalid), dictionary and ignore commands, watched-file events and restarts, with editors that answer configuration requests or refuse them. At every quiescent point and at the end, the last "
           "publishDiagnostics per URI must equal a stateless recomputation from the editor model's truth (fresh dictionaries, fresh rule set, "
           "own language table, own rule-switch resolution, own UTF-16 arithmetic); closed documents must be empty; a sentinel request must be "
           "answered once input stops (bounded liveness); a server panic is a violation. Seeded sampling of histories and schedules: evidence, not proof."),
@@ -47,24 +47,24 @@ CLAIMED["C07"] = dict(
     text=("Sessions dominated by add-to-dictionary commands (server-offered and generated Unicode words, adversarial file-name pairs, case variants) "
           "against the real server, with orderly restarts and process death. Crash points are enumerated, not sampled: for every crash-free base history, "
           "the run is re-executed with the process killed right before each event of each dictionary save (mkdir, create, every write, flush, rename), and "
-          "for each write with the in-flight data landing as a prefix of 0, 1, half, all-but-one bytes; random crash placement is run in addition. "
+          "for each write with the in-flight data landing as a prefix of 0, 1, half, all-but-one bytes; random crash placement is run in addition. A further batch injects disk errors (EIO, ENOSPC, EMFILE, EACCES) into the file operations of add-word commands; writes complete in the background as tokio's do, so a missing flush, a rename that overtakes its write, or a lost write error are all reachable. Dictionaries may pre-exist (hand-written, CRLF, without final newline, thousands of words, behind a symbolic link) and are also edited by hand during sequential sessions. "
           "Oracles: dictionary files reload to exactly the acknowledged words (an in-flight word may or may not be there, never a fragment); after "
           "every step the diagnostics of every open document equal the reference under the model's word sets (added words accepted, all else unchanged, "
           "file words only in their file). Exhaustive over crash points per sampled history; histories are sampled."),
     design_ref="DESIGN.md §3 C07",
     note=("Durability model: process death (completed system calls persist); power loss is not modelled. One add command in flight at a time. "
-          "The harper_wasm import_words half of the property is exercised by api-sim under C16. Two genuine findings are listed in known_findings.jsonl "
-          "(case-variant replacement, file-dictionary name collision)."),
+          "The harper_wasm import_words half of the property is exercised by api-sim under C16. Genuine findings left in the tree are listed in known_findings.jsonl "
+          "(case-variant replacement, file-dictionary name collision, words of another dialect)."),
     technique=TECH + "; lsp-sim with crash/restart, crash points enumerated per dictionary save, torn writes")
 CLAIMED["C10"] = dict(
     engine="lsp-sim",
     category="exploration",
     text=("Every way out of the simulated process is a seam the harness owns: the harness binary defines libc's socket/connect/bind/listen/sendto/"
-          "sendmsg/getaddrinfo (recorded and refused) and open/openat/creat/mkdir/rename/unlink (recorded and forwarded), and the whole server runs inside it. "
+          "sendmsg/getaddrinfo and posix_spawn/execve (recorded and refused) and open/openat/creat/mkdir(at)/rename(at,at2)/unlink(at)/link/symlink/truncate/chmod/utimensat and their descriptor-based forms (recorded and forwarded), and the whole server runs inside it, with the environment of a desktop session pointing into a scratch world that may already hold other programs' files and dictionaries at the default locations. "
           "Over sessions that use every notification and command except HarperOpen, with the dictionary and statistics paths set, unset and changed, "
-          "the closed-world invariant is checked at every quiescent point and at exit: no network call; every created/modified path is a configured "
+          "the closed-world invariant is checked at every quiescent point and at exit: no network call, no program started; every created/modified path is a configured "
           "user-dictionary, file-dictionary or statistics file (or a directory leading to one, or a sibling temporary renamed onto one); a snapshot of the "
-          "scratch world shows no stray file and no modified document."),
+          "scratch world shows no stray file, no modified document and every pre-existing foreign file unchanged."),
     design_ref="DESIGN.md §3 C10",
     note=("Covers what the workloads reach inside the simulated process; main.rs (loopback listener), HarperOpen and the static dependency graph are outside. "
           "Assumes dependencies reach the kernel through libc symbols (interposed) rather than raw syscalls."),
@@ -75,7 +75,7 @@ CLAIMED["C08"] = dict(
     text=("The property quantifies over inputs only; it is claimed because it is a statement about two parties with different coordinate systems "
           "(char indices vs LSP line/UTF-16 column), observable only by running the protocol - the simulator contributes the second party and the "
           "session workload here, not interleavings (sequential policy). After every text change in documents of all language ids, with astral and "
-          "combining characters, tabs, CRLF, lints on first/last line and missing trailing newlines, the editor model requests code actions at every "
+          "combining characters, tabs, CRLF and lone-CR line ends, lints on first/last line, lints across a line break and missing trailing newlines, the editor model requests code actions at every "
           "character position inside every published range. Oracle: ranges equal reference lint spans under the editor's own UTF-16 arithmetic; every "
           "reference lint containing the position is offered with exactly that lint in its HarperIgnoreLint command; for each suggestion a returned "
           "TextEdit with exactly the lint's range, applied as an editor applies it, equals an independent splice of the suggestion into the char span."),
@@ -100,7 +100,7 @@ CLAIMED["C14"] = dict(
     engine="api-sim",
     category="exploration",
     text=("Histories (6-36 operations) of lint / ignore the k-th lint / edit (prepend, append, insert, delete, replace, quotes, astral characters, "
-          "duplicated text) / export-clear-import / language switch on two long-lived objects: the core IgnoredLints+LintGroup pair as harper-ls drives it, "
+          "duplicated text, words placed just beyond an ignored lint's neighbourhood) / export-clear-import / language switch on two long-lived objects: the core IgnoredLints+LintGroup pair as harper-ls drives it, "
           "and harper_wasm::Linter. There is no fault or schedule dimension for this state; what is simulated is histories against a reference model, and the "
           "evidence says so. Model: ignored lint identities (kind, message, suggestions, priority, flagged text, token texts within two characters either side), "
           "tracked through edits while their neighbourhood is untouched. After every lint: a tracked ignored lint is absent; every lint of a fresh linter whose "
